@@ -501,7 +501,7 @@ func init() {
 		ID:    "C20",
 		Level: "exploration",
 		Rule: "A corpus of 32 requests against vanguard.test.v1.LibraryService and ContentService (HttpBody bodies and responses, client / server / bidi streams) (16 REST requests over all 13 bindings incl. nested / multi-segment variables, verbs, repeated and scalar bodies, response_body, escapes, an ill-typed parameter, wrong method, unknown route; RPC requests in gRPC, gRPC-Web, Connect POST and GET incl. a 405 and an unknown method) x 4 target configurations " +
-			"is run against 9 registrations of the same schema (generated code by name; fresh protodesc copy; descriptor set with its full import closure rebuilt (fresh descriptors for every imported type), also with a resolver that knows nothing; copy without parent file; resolver that knows nothing; resolver that knows only request types; dynamically typed google.api.http options; GlobalTypes resolver for a fresh copy) and against vanguardgrpc.NewTranscoder vs NewService-by-name over one grpc.Server; " +
+			"is run against 10 registrations of the same schema (generated code by name; a copy whose fields carry no explicit json_name; fresh protodesc copy; descriptor set with its full import closure rebuilt (fresh descriptors for every imported type), also with a resolver that knows nothing; copy without parent file; resolver that knows nothing; resolver that knows only request types; dynamically typed google.api.http options; GlobalTypes resolver for a fresh copy) and against vanguardgrpc.NewTranscoder vs NewService-by-name over one grpc.Server; " +
 			"every variant's client- and backend-side semantic outcome must equal the generated-code variant's. Drift: a schema whose content differs from the linked-in file of the same path (Book gets an extra field) must behave as the same content registered under another path (4 requests x 3 targets). Parameter kinds: every field path (depth <= 2) of vanguard.test.v1.ParameterValues x 24 value corners (NaN / infinities, range edges, ill-typed) as a query parameter of a GET and of a POST with a body field x 3 targets, bound into generated types vs dynamicpb types vs a resolver that knows nothing. Non-trivial = (request, target, variant) whose message types resolve to a different Go type than in the baseline.",
 		Assume:    []string{"messages are compared after decoding against the generated descriptors"},
 		Scenarios: []Scenario{{Name: "variants", Fn: c20Scenario, QuickBound: 0, ThoroughBound: 0}, {Name: "drift", Fn: c20Drift, QuickBound: 0, ThoroughBound: 0}, {Name: "any-type-urls", Fn: c20AnyURLs, QuickBound: 0, ThoroughBound: 0}, {Name: "param-kinds", Fn: c20Params, QuickBound: 0, ThoroughBound: 0}},
